@@ -663,6 +663,9 @@ func (m *RedisMessage) unmarshalView(c int64, buf []byte) (int64, error) {
 	case typeInteger, typeNull, typeBool:
 		m.intlen = size
 	case typeArray, typeMap, typeSet:
+		if size < 0 || size > (int64(len(buf))-c)/9 { // every element takes at least 9 bytes
+			return 0, ErrCacheUnmarshal
+		}
 		m.setValues(make([]RedisMessage, size))
 		for i := range m.values() {
 			if c, err = m.values()[i].unmarshalView(c, buf); err != nil {
@@ -670,7 +673,7 @@ func (m *RedisMessage) unmarshalView(c int64, buf []byte) (int64, error) {
 			}
 		}
 	default:
-		if int64(len(buf)) < c+size {
+		if size < 0 || int64(len(buf))-c < size {
 			return 0, ErrCacheUnmarshal
 		}
 		m.setString(BinaryString(buf[c : c+size]))
